@@ -15,7 +15,8 @@ duplicate labels).  Cases whose window orderings are not total within each parti
 mid-chain limit cuts through ties, are not determined and are counted as skipped.
 
 Null placement observed per back end (documented, not flagged): Pandas sort_values puts nulls last for both
-directions; SQLite puts NULL first ascending and last descending; Polars puts nulls first for both.
+directions; SQLite puts NULL first ascending and last descending; Polars puts nulls first for both and
+treats a float NaN (0.0/0.0) as a value greater than every number (so NaN sorts last ascending).
 """
 from __future__ import annotations
 
@@ -113,7 +114,9 @@ def _post_common(outcome, ops_last_node) -> Optional[str]:
     if outcome.exception is not None:
         st["out"] = C._outcome_raise(outcome.exception)
     else:
-        cols, rows = C.canon_rows(outcome.value)
+        # Polars keeps NaN (e.g. 0.0/0.0) as a float VALUE that sorts after every number, distinct from null
+        # (which it sorts first): keep the two apart so that the sortedness check judges what Polars did
+        cols, rows = C.canon_rows(outcome.value, keep_nan=True)
         st["out"] = ("ok", cols, rows)
     st["seen"] = True
     mode = st.get("mode")
@@ -196,7 +199,7 @@ def _run(backend: str, ops, spec, data, frames=None):
 def eval_case(spec: Dict[str, Any], data: Dict[str, Any]) -> Dict[str, Any]:
     _ensure_attached()
     ops = C.build(spec)
-    pc = C.PrefixCache(spec, data)
+    pc = C.PrefixCache(spec, data, keep_nan=True)
     skip, info = C.data_preconditions(spec, pc, backends=RUN_BACKENDS)
     if skip is not None:
         return {"status": "skipped:" + skip, "evals": [], "fails": []}
